@@ -209,6 +209,10 @@ ChooseHandler ==
 ChooseBareHttp ==
     /\ ph = "barehttp"
     /\ \/ UNCHANGED scn
+       \* an un-enveloped backend (Connect unary, REST) compresses its error body (Content-Encoding)
+       \/ /\ scn.hd.end.code # 0 /\ ~Enveloped(Srv.form) /\ "gzip" \in Range(scn.cfg.comps)
+          /\ scn.hd.end.msg \in {"ascii", "nonascii"}
+          /\ scn' = [scn EXCEPT !.hd.comp = "gzip", !.cl.accept = <<"gzip">>]
        \/ /\ scn.hd.end.code = 1 /\ scn.hd.end.msg = "ascii" /\ scn.hd.end.details = 0 /\ scn.hd.end.how = "normal"
           /\ \E st \in HttpStatuses :
                scn' = [scn EXCEPT !.hd.end = [DefaultEnd EXCEPT !.how = "barehttp", !.code = 0], !.hd.status = st,
@@ -261,6 +265,10 @@ ChooseHostile ==
        \/ scn' = [scn EXCEPT !.hd.noread = TRUE]
        \/ \E w \in {<<1>>, <<0, 3>>, <<7>>} : scn' = [scn EXCEPT !.hd.writes = w, !.hd.flush = TRUE]
        \/ \E code \in {17, 99, 65536} : scn' = [scn EXCEPT !.hd.end.code = code, !.hd.errat = 0]
+       \* a non-zero grpc-status whose grpc-status-details-bin says code 0, after a complete response
+       \/ Srv.form \in {"grpc", "grpcweb"} /\ scn' = [scn EXCEPT !.hd.fault = "detailscode0"]
+       \* a failure whose error object names no code (Connect), a failure status whose google.rpc.Status says 0 (REST)
+       \/ Srv.form \notin {"grpc", "grpcweb"} /\ scn' = [scn EXCEPT !.hd.fault = "errcode0"]
        \/ \E st \in {204, 304, 999} : scn' = [scn EXCEPT !.hd.end.how = "barehttp", !.hd.status = st]
     /\ ph' = "run"
     /\ UNCHANGED m
